@@ -448,11 +448,9 @@ class Account:
         seed, self.init_vectors['seed'] = aes_decrypt(password, self.seed)
         if not seed:
             return ""
-        try:
-            Mnemonic().mnemonic_decode(seed)
-        except IndexError:
-            # failed to decode the seed, this either means it decrypted and is invalid
-            # or that we hit an edge case where an incorrect password gave valid padding
+        # the seed is the right one iff it regenerates this account's key (it need not come from the English word
+        # list); otherwise it decrypted to something invalid or an incorrect password happened to give valid padding
+        if self.get_private_key_from_seed(self.ledger, seed, '').public_key.address != self.id:
             raise ValueError("Failed to decode seed.")
         return seed
 
